@@ -578,18 +578,28 @@ def c06_signed_table(rep):
             else:
                 mn, mx, ms = counts(Fraction(str(mind)), Fraction(str(maxd)), Fraction(str(sil)), Fraction(str(aw)))
                 bad = mn > mx or ms >= mx
+        # the window under its long name, under its alias, and through the region method; zero also as 0.0 / -0.0
+        how = (rep.cov["evaluations"]) % 3
+        aw_given = (0.0 if how == 1 else -0.0 if how == 2 else 0) if aw == 0 else aw
         try:
-            list(L["core"].split(data, min_dur=mind, max_dur=maxd, max_silence=sil, analysis_window=aw, sr=100, sw=1, ch=1,
-                                 validator=FirstByte()))
+            kw = dict(min_dur=mind, max_dur=maxd, max_silence=sil, validator=FirstByte())
+            if how == 0:
+                list(L["core"].split(data, analysis_window=aw_given, sr=100, sw=1, ch=1, **kw))
+            elif how == 1:
+                list(L["core"].split(data, aw=aw_given, sr=100, sw=1, ch=1, **kw))
+            else:
+                list(L["AR"](data, 100, 1, 1).split(aw=aw_given, **kw))
             got = False
         except ValueError:
             got = True
         except Exception as exc:
             got = repr(exc)
         if got is not bad:
-            rep.violation("signed min=%r max=%r sil=%r aw=%r" % (mind, maxd, sil, aw),
-                          "split %s, statement says %s" % ("raised ValueError" if got is True else ("accepted" if got is False else got),
-                                                           "ValueError" if bad else "accept"),
+            rep.violation("signed min=%r max=%r sil=%r aw=%r how=%d" % (mind, maxd, sil, aw_given, how),
+                          "split (%s) %s, statement says %s" % (
+                              ("analysis_window=%r" if how == 0 else "aw=%r" if how == 1 else "AudioRegion.split, aw=%r") % aw_given,
+                              "raised ValueError" if got is True else ("accepted" if got is False else got),
+                              "ValueError" if bad else "accept"),
                           {"kind": "c06signed", "min": mind, "max": maxd, "sil": sil, "aw": aw})
 
 
